@@ -1,7 +1,19 @@
+import SpecKitV.Props.ResultQueriesGen
+import SpecKitV.Props.KernelHeapGen
 import SpecKitV.Props.C14
 import SpecKitV.Lemmas.AnalyzerGlue
 import SpecKitV.Props.ConfigGlueGen
 
+#print axioms gen_getattr_eq_model
+#print axioms gen_getattr_run_eq_model
+#print axioms gen_lazy_cache_sound
+#print axioms gen_lazy_run_empty
+#print axioms gen_lazy_order_independent
+#print axioms gen_lazy_run_dynamic
+#print axioms gen_getattr_formula_first
+#print axioms np_kernels_write_no_caller_buffer
+#print axioms cRun_sub_aRun
+#print axioms np_kernels_abstract_clean
 #print axioms Par.prange_any_schedule
 #print axioms Par.prange_schedules_agree
 #print axioms Par.prange_frame
